@@ -266,6 +266,16 @@ type c13Node struct {
 	db       *metadb.DB
 	sm       multiraft.StateMachine
 	poisoned bool // a panic escaped from the code under test: locks may be held, never reuse
+	// cfg is the in-memory runtime configuration (hash-slot migration table) that the slot runtime installs on every
+	// state machine it builds; it is not durable, so it is installed again after a restart
+	cfg func(multiraft.StateMachine)
+}
+
+func (n *c13Node) configure(cfg func(multiraft.StateMachine)) {
+	n.cfg = cfg
+	if cfg != nil && n.sm != nil {
+		cfg(n.sm)
+	}
 }
 
 // Replicas are pooled: a released replica is wiped through the metadb API (DeleteHashSlotData of every hash slot
@@ -341,7 +351,7 @@ func (n *c13Node) release() {
 			return
 		}
 	}
-	n.sm = nil
+	n.sm, n.cfg = nil, nil
 	c13PoolMu.Lock()
 	c13PoolFree = append(c13PoolFree, n)
 	c13PoolMu.Unlock()
@@ -402,6 +412,9 @@ func (n *c13Node) open() error {
 		return err
 	}
 	n.db, n.sm = db, sm
+	if n.cfg != nil {
+		n.cfg(sm)
+	}
 	return nil
 }
 
@@ -559,6 +572,7 @@ func c13CheckApplied(prev, now, first uint64, res [][]byte, _ string, where stri
 // ---------------------------------------------------------------- mc system
 
 type c13Sys struct {
+	cfg      func(multiraft.StateMachine) // in-memory runtime configuration of every replica of this system
 	name     string
 	menu     []c13Cmd
 	byLabel  map[string]int
@@ -575,8 +589,14 @@ type c13Inst struct {
 	tr   c13Trace
 }
 
-func (s *c13Sys) newInst() mc.Instance {
+func (s *c13Sys) acquire() *c13Node {
 	n := c13Acquire()
+	n.configure(s.cfg)
+	return n
+}
+
+func (s *c13Sys) newInst() mc.Instance {
+	n := s.acquire()
 	in := &c13Inst{sys: s, node: n}
 	snap, a := n.state()
 	in.tr.errAt = -1
@@ -750,6 +770,14 @@ func c13Class(kind string) string {
 		return "task-lifecycle"
 	case "mig-gc":
 		return "task-gc"
+	case "hs-fence":
+		return "hashslot-fence"
+	case "hs-ack":
+		return "hashslot-ack"
+	case "hs-cleanup":
+		return "hashslot-cleanup"
+	case "hs-delta":
+		return "hashslot-delta"
 	}
 	return kind
 }
@@ -757,7 +785,7 @@ func c13Class(kind string) string {
 // probeBatch applies commands 0..a-1 one per batch and a..b as one batch on a fresh replica and reports how the
 // batch differs from the reference: "result" (first differing command returned), "state", "error" or "".
 func (s *c13Sys) probeBatch(t *c13Trace, a, b int) (string, int) {
-	node := c13Acquire()
+	node := s.acquire()
 	defer node.release()
 	for i := 0; i < a; i++ {
 		if _, err := node.apply(t.cmds[i:i+1], uint64(i+1)); err != nil {
@@ -811,7 +839,7 @@ func c13Range(t *c13Trace, a, b int) string {
 
 func (s *c13Sys) runPartition(t *c13Trace, mask int) error {
 	s.partitionRuns.Add(1)
-	node := c13Acquire()
+	node := s.acquire()
 	defer node.release()
 	n := len(t.cmds)
 	kind := t.lastKind()
@@ -921,7 +949,7 @@ func c13Continue(node *c13Node, t *c13Trace, from, floor int, what, where string
 
 func (s *c13Sys) runRestart(t *c13Trace, k int) error {
 	s.restartRuns.Add(1)
-	node := c13Acquire()
+	node := s.acquire()
 	defer node.release()
 	kind := c13Class(t.lastKind())
 	where := fmt.Sprintf("restart after %d of [%s]", k, strings.Join(t.labels(), " | "))
@@ -950,7 +978,7 @@ func (s *c13Sys) runRestart(t *c13Trace, k int) error {
 
 func (s *c13Sys) runSnapshot(t *c13Trace, k int) error {
 	s.snapshotRuns.Add(1)
-	node := c13Acquire()
+	node := s.acquire()
 	defer node.release()
 	kind := c13Class(t.lastKind())
 	where := fmt.Sprintf("snapshot at %d of [%s]", k, strings.Join(t.labels(), " | "))
@@ -996,7 +1024,11 @@ func c13Count(m *sync.Map) (int, []string) {
 }
 
 func c13RunLogs(r *ev.R, name, menuSize string, depth int) (*c13Sys, mc.Result) {
-	s := &c13Sys{name: name, menu: c13Menu(menuSize), byLabel: map[string]int{}, maxDepth: depth}
+	return c13RunSystem(r, &c13Sys{name: name, menu: c13Menu(menuSize), byLabel: map[string]int{}, maxDepth: depth})
+}
+
+func c13RunSystem(r *ev.R, s *c13Sys) (*c13Sys, mc.Result) {
+	name, depth := s.name, s.maxDepth
 	refused := 0
 	for i, c := range s.menu {
 		if _, dup := s.byLabel[c.label]; dup {
@@ -1024,6 +1056,96 @@ func c13RunLogs(r *ev.R, name, menuSize string, depth int) (*c13Sys, mc.Result) 
 	r.Count(name+".logs_ending_in_refused_command", s.refusedLogs.Load())
 	r.Count(name+".multi_command_batches_with_stale_result", s.multiBatchWithStale.Load())
 	return s, res
+}
+
+// ---------------------------------------------------------------- hash-slot migration systems
+
+// c13DeltaConfig is the runtime configuration of a source slot whose hash slot 3 is being migrated to slot 22 in
+// the delta phase (the runtime calls UpdateOutgoingDeltaTargets on every state machine it builds; the table is
+// in memory only). With no configuration a fence must name its target itself (snapshot phase).
+func c13DeltaConfig(sm multiraft.StateMachine) {
+	sm.(interface {
+		UpdateOutgoingDeltaTargets(map[uint16]multiraft.SlotID)
+	}).UpdateOutgoingDeltaTargets(map[uint16]multiraft.SlotID{c13HS: 22})
+}
+
+// c13MenuHS is the menu of the hash-slot migration family on hash slot 3 (source slot 7 -> target 22): ordinary
+// writes to the migrating and to another hash slot, enter-fence with / without explicit target and with another
+// target, outbox ack, outbox cleanup (partial, and through the end = finalize, which lifts the fence), incoming
+// apply-delta (fresh, and the same source index again).
+func c13MenuHS(config, size string) []c13Cmd {
+	mk := func(label, family string, hs uint16, data []byte) c13Cmd {
+		return c13Cmd{label: label, family: family, slot: c13Slot, hs: hs, data: data}
+	}
+	self, target := multiraft.SlotID(c13Slot), multiraft.SlotID(22)
+	noTargetFamily := "valid"
+	if config == "snapshot-phase" {
+		noTargetFamily = "malformed" // no migration known for the hash slot: the fence must be refused
+	}
+	all := map[string]c13Cmd{}
+	for _, c := range []c13Cmd{
+		mk("user-upsert:u1:a", "valid", c13HS, fsm.EncodeUpsertUserCommand(metadb.User{UID: "u1", Token: "a"})),
+		mk("user-upsert:u9:b@4", "valid", c13HS2, fsm.EncodeUpsertUserCommand(metadb.User{UID: "u9", Token: "b"})),
+		mk("hs-fence:3:no-target", noTargetFamily, c13HS, fsm.EncodeEnterFenceCommand(c13HS)),
+		mk("hs-fence:3:target22", "valid", c13HS, fsm.EncodeEnterFenceCommandForTarget(c13HS, target)),
+		mk("hs-fence:3:target23", "valid", c13HS, fsm.EncodeEnterFenceCommandForTarget(c13HS, 23)),
+		mk("hs-ack:3:idx1", "valid", c13HS, fsm.EncodeAckHashSlotMigrationOutboxCommand(c13HS, self, target, 1)),
+		mk("hs-ack:3:idx2", "valid", c13HS, fsm.EncodeAckHashSlotMigrationOutboxCommand(c13HS, self, target, 2)),
+		mk("hs-cleanup:3:through1", "valid", c13HS, fsm.EncodeCleanupHashSlotMigrationOutboxCommand(c13HS, self, target, 1)),
+		mk("hs-cleanup:3:through9", "valid", c13HS, fsm.EncodeCleanupHashSlotMigrationOutboxCommand(c13HS, self, target, 9)),
+		mk("hs-delta:5>3:idx11:user-u3", "valid", c13HS, fsm.EncodeApplyDeltaCommand(5, 11, c13HS, fsm.EncodeUpsertUserCommand(metadb.User{UID: "u3", Token: "d"}))),
+		mk("hs-delta:5>3:idx12:user-u1", "valid", c13HS, fsm.EncodeApplyDeltaCommand(5, 12, c13HS, fsm.EncodeUpsertUserCommand(metadb.User{UID: "u1", Token: "z"}))),
+		mk("hs-fence:envelope4-body3", "malformed", c13HS2, fsm.EncodeEnterFenceCommand(c13HS)),
+	} {
+		all[c.label] = c
+	}
+	var labels []string
+	switch config + "/" + size {
+	case "snapshot-phase/small":
+		labels = []string{"user-upsert:u1:a", "hs-fence:3:target22", "hs-fence:3:target23", "hs-ack:3:idx2", "hs-cleanup:3:through9", "hs-fence:3:no-target"}
+	case "delta-phase/small":
+		labels = []string{"user-upsert:u1:a", "hs-fence:3:no-target", "hs-ack:3:idx1", "hs-cleanup:3:through1", "hs-cleanup:3:through9"}
+	case "snapshot-phase/full":
+		labels = []string{"user-upsert:u1:a", "user-upsert:u9:b@4", "hs-fence:3:target22", "hs-fence:3:target23", "hs-ack:3:idx2", "hs-cleanup:3:through1", "hs-cleanup:3:through9",
+			"hs-delta:5>3:idx11:user-u3", "hs-delta:5>3:idx12:user-u1", "hs-fence:3:no-target", "hs-fence:envelope4-body3"}
+	case "delta-phase/full":
+		labels = []string{"user-upsert:u1:a", "user-upsert:u9:b@4", "hs-fence:3:no-target", "hs-fence:3:target23", "hs-ack:3:idx1", "hs-ack:3:idx2", "hs-cleanup:3:through1", "hs-cleanup:3:through9",
+			"hs-delta:5>3:idx11:user-u3", "hs-fence:envelope4-body3"}
+	default:
+		panic("c13: unknown hash-slot menu " + config + "/" + size)
+	}
+	out := make([]c13Cmd, 0, len(labels))
+	for _, l := range labels {
+		c, ok := all[l]
+		if !ok {
+			panic("c13: no hash-slot menu entry " + l)
+		}
+		out = append(out, c)
+	}
+	return out
+}
+
+func c13RunHS(r *ev.R, config, size string, depth int) {
+	s := &c13Sys{name: fmt.Sprintf("logs%d-hashslot-migration-%s", depth, config), menu: c13MenuHS(config, size), byLabel: map[string]int{}, maxDepth: depth}
+	if config == "delta-phase" {
+		s.cfg = c13DeltaConfig
+	}
+	_, res := c13RunSystem(r, s)
+	if r.Replay() != nil {
+		return
+	}
+	_, kinds := c13Count(&s.resultKinds)
+	fenced := false
+	for _, k := range kinds {
+		if k == fsm.ApplyResultHashSlotFenced {
+			fenced = true
+		}
+	}
+	r.Guard(s.name+"/fenced-writes", fenced, "one-per-batch results observed=%v (need hash_slot_fenced)", kinds)
+	r.Guard(s.name+"/logs", res.Transitions >= 150, "command logs=%d", res.Transitions)
+	r.Guard(s.name+"/variants", s.partitionRuns.Load() >= 100 && s.restartRuns.Load() >= 100 && s.snapshotRuns.Load() >= 100,
+		"partition runs=%d restart runs=%d snapshot-restore runs=%d", s.partitionRuns.Load(), s.restartRuns.Load(), s.snapshotRuns.Load())
+	r.Guard(s.name+"/refused-logs", s.refusedLogs.Load() >= 5, "logs ending in a refused command=%d", s.refusedLogs.Load())
 }
 
 // ---------------------------------------------------------------- garbage payloads (enum)
@@ -1387,11 +1509,21 @@ func TestVerifC13(t *testing.T) {
 			c13Guards(r, s, res)
 		}
 	}
+	// hash-slot migration family (fence / outbox ack / cleanup / apply-delta around ordinary writes), with and
+	// without the in-memory delta-phase migration table
+	for _, config := range []string{"snapshot-phase", "delta-phase"} {
+		if !r.Thorough() {
+			c13RunHS(r, config, "small", 3)
+		} else {
+			c13RunHS(r, config, "full", 3)
+		}
+	}
 	if r.Replay() != nil {
 		return
 	}
 	c13RunGarbage(r)
 	c13Assumptions(r)
+	r.Assume("the in-memory hash-slot migration table (UpdateOutgoingDeltaTargets) is fixed per explored system and installed on every state machine, also after a restart and on a snapshot-restored replica, as the slot runtime does; changes of that table between commands are outside the log and not explored")
 }
 
 // TestVerifC13Depth4 (thorough only): every log <=4 over the small menu.
@@ -1399,6 +1531,9 @@ func TestVerifC13Depth4(t *testing.T) {
 	r, done := c13Setup(t)
 	defer done()
 	s, res := c13RunLogs(r, "logs4-small-menu", "small", 4)
+	for _, config := range []string{"snapshot-phase", "delta-phase"} {
+		c13RunHS(r, config, "small", 4)
+	}
 	if r.Replay() != nil {
 		return
 	}
